@@ -2,7 +2,7 @@
    A new package-level variable of a non-immutable type, or a variable that starts being written /
    having methods called on it outside init(), is not in these lists: C40_shared_state_audited breaks
    until somebody audits it and adds it here WITH its justification. *)
-From Coq Require Import List String.
+From Coq Require Import NArith List String.
 Import ListNotations.
 Open Scope string_scope.
 
@@ -181,4 +181,45 @@ Definition audited_all : list string := [
   "sign.oidTimestampToken";
   "types.PaperSize";
   "types.pdfDocEncoding"
+].
+
+(* ---- variables whose ADDRESS escapes into per-document structures ("pointee only read") ----
+   Their own class: nothing may ever write THROUGH a pointer that can hold one of these addresses.
+   model.zero / pdfcpu.zero: &zero becomes the Offset of repaired free-list heads and of free entries
+   with generation 65535 in EVERY document, and pdfcpu.tryXRefSection returns &zero as its "this is not
+   an xref section" marker.  color.*: passed as *SimpleColor to drawing helpers that only read them. *)
+Definition audited_escaping : list string :=
+  ["color.Black"; "color.Green"; "color.Red"; "model.zero"; "pdfcpu.zero"].
+
+Definition audited_addr_flows : list (string * string) := [
+  ("color.Black", "arg:draw.DrawRect");                   (* read-only parameter *)
+  ("color.Black", "field:col");                           (* primitives: border colour, only read when rendering *)
+  ("color.Black", "other:primitives.ImageBox.render");    (* local default colour, only read *)
+  ("color.Black", "return:primitives.Border.calc");       (* returned as the border colour, only read *)
+  ("color.Green", "arg:draw.DrawRect");
+  ("color.Red", "arg:draw.DrawCircle");
+  ("color.Red", "arg:draw.DrawRect");
+  ("color.Red", "arg:model.NewLinkAnnotation");           (* stored as annotation border colour, only rendered *)
+  ("model.zero", "field:Offset");                         (* XRefTableEntry.Offset of free heads / forever-free entries *)
+  ("pdfcpu.zero", "field:Offset");                        (* read.go: free head created from scratch *)
+  ("pdfcpu.zero", "return:pdfcpu.tryXRefSection")         (* marker compared with 0 by buildXRefTableStartingAt *)
+].
+
+(* every explicit write through a dereference that could hit such a pointee, and why it cannot:
+   (function, (field or *identifier, number of such writes in the function)) *)
+Definition audited_deref_writes : list (string * (string * N)) := [
+  ("model.XRefTable.EnsureValidFreeList", ("Generation", 1%N));   (* *head.Generation: the head's own cell (file entry or fresh g0), never &zero *)
+  ("model.XRefTable.EnsureValidFreeList", ("Offset", 2%N));       (* *head.Offset = 0 only if it is not 0 already (so never while it is &zero);
+                                                                     *lastValid.Offset: lastValid had a non-zero Offset, so not &zero *)
+  ("model.XRefTable.FreeObject", ("Generation", 1%N));            (* in-use entry: own generation cell *)
+  ("model.XRefTable.UndeleteObject", ("Generation", 1%N));        (* own generation cell *)
+  ("model.XRefTable.UndeleteObject", ("Offset", 1%N));            (* *f.Offset where int of f.Offset = objNr <> 0 was just followed: not &zero *)
+  ("model.XRefTable.validateFreeList", ("Offset", 1%N));          (* *e.Offset = 0 inside `for f != 0` with f = *e.Offset: not &zero *)
+  ("model.skipComment", ("*off", 1%N));                           (* local cursor *)
+  ("model.skipStringLit", ("*off", 1%N));                         (* local cursor *)
+  ("pdfcpu.buildXRefTableStartingAt", ("*offset", 1%N));          (* the caller's startxref value, before any tryXRefSection result is used *)
+  ("pdfcpu.createXRefTableEntry", ("Offset", 1%N));               (* entry created a few lines above with its own offset *)
+  ("pdfcpu.parseAndLoad", ("*offset", 2%N));                      (* bypassXrefSection's local cursor *)
+  ("pdfcpu.processObject", ("*offset", 1%N));                     (* bypassXrefSection's local cursor *)
+  ("pdfcpu.processXRefStream", ("*offset", 1%N))                  (* the offset being parsed: non-zero (tryXRefSection's &zero is never passed on: `*off != 0`) *)
 ].
